@@ -1,7 +1,181 @@
-(* C04 — PLY write/read round trip.  Statements only; proofs live in Formats/PlyWriteProofs.v. *)
+(* C04 — PLY write/read round trip in ASCII, little-endian and big-endian.
+   Statements only; proofs live in Formats/PlyWriteProofs.v.  Writer model: Formats/PlyWrite.v (MeshWriter.Write,
+   property writers, header, face records); reader model: Formats/PlyRead.v (the C08 model of ply.ReadMesh).
+
+   Vocabulary.  A writer table applied to a mesh is a list of groups [gs : list rgroup] (property names, one
+   storage type, one row of float32 words per vertex); [group_good n g]: supported type (float, double, uchar), n
+   rows of the right width, every value storable ([bword]) with a word that fits the type and readable ([val]).
+   [layout bin gs 0] are the property readers laid out on those groups (byte offsets / token columns);
+   [vrow gs i] are the float64 values the model of polyform's readers must deliver for vertex i:
+   float -> widening of the stored word, uchar -> round(255 x)/255 through the division table, double -> the word.
+
+   The mesh-level statement  read_mesh (write o f m) = expected o m  is proved here per component (header,
+   vertex element, face element, for each encoding); its remaining glue — which readers ply.ReadMesh builds on
+   the written property list (build_readers = layout) and the final attribute regrouping/unweld — is NOT proved:
+   it is evaluated on every generated case by Check/C04.v ([corr_one]: read_mesh file = implementation result =
+   expected o m).  Hence the names ..._partial below; the full statement is kept in the comment next to them. *)
 From PF Require Import Base.Bytes Formats.PlyRead Formats.PlyWrite Formats.PlyWriteProofs.
+From Coq Require Import String.
+Open Scope list_scope.
 Open Scope N_scope.
 
-Theorem ply_word_size : forall e t w, List.length (enc_word e t w) = sty_size t.
-Proof. exact enc_word_length. Qed.
-Print Assumptions ply_word_size.
+(* FULL STATEMENT (not proved as one theorem):
+     forall o m f, wf_mesh m = true -> o uses ply.Write's table ->
+       exists file, write o f m = Ok file /\ read_mesh file = expected o m.                                  *)
+
+(* ---- header: what Header.Write emits parses back to the same format, elements, counts and property list ---- *)
+Theorem ply_header_roundtrip : forall f gs m,
+  parse_header (header_lines f (header_elems gs m))
+  = Ok {| h_fmt := f; h_elems := header_elems gs m; h_comments := [tl comment_line] |}.
+Proof. intros. apply parse_header_written, header_elems_ok. Qed.
+Print Assumptions ply_header_roundtrip.
+
+(* ---- vertex element, binary (e = LEnd / BEnd): reading the n written records with the laid-out readers returns,
+        for every vertex in order, the stored image of every group, and consumes exactly the vertex block ---- *)
+Theorem ply_roundtrip_le_partial : forall n gs rest, Forall (group_good n) gs ->
+  read_vertices_bin LEnd (layout true gs 0) (record_size (vertex_props gs)) n
+    (flat_map (fun i => flat_map (fun g => genc LEnd g i) gs) (seq 0 n) ++ rest)
+  = Ok (map (vrow gs) (seq 0 n), rest).
+Proof.
+  intros n gs rest H. rewrite record_size_props.
+  pose proof (read_vertices_bin_written LEnd n gs n rest H (le_n n)) as R. rewrite Nat.sub_diag in R. exact R.
+Qed.
+Print Assumptions ply_roundtrip_le_partial.
+
+Theorem ply_roundtrip_be_partial : forall n gs rest, Forall (group_good n) gs ->
+  read_vertices_bin BEnd (layout true gs 0) (record_size (vertex_props gs)) n
+    (flat_map (fun i => flat_map (fun g => genc BEnd g i) gs) (seq 0 n) ++ rest)
+  = Ok (map (vrow gs) (seq 0 n), rest).
+Proof.
+  intros n gs rest H. rewrite record_size_props.
+  pose proof (read_vertices_bin_written BEnd n gs n rest H (le_n n)) as R. rewrite Nat.sub_diag in R. exact R.
+Qed.
+Print Assumptions ply_roundtrip_be_partial.
+
+(* ---- vertex element, ASCII: token lines; [ascii_ok] excludes the 8-bit scalar read through
+        Vector1PropertyReader (known finding ply:ascii-uchar-scalar-raw, see ascii_uchar_scalar_refuted) ---- *)
+Theorem ply_roundtrip_ascii_partial : forall n gs rest,
+  Forall (group_good n) gs -> forallb ascii_ok gs = true -> vertex_props gs <> [] ->
+  read_vertices_ascii (layout false gs 0) (List.length (vertex_props gs))
+    (map (fun i => flat_map (fun g => gtoks g i) gs) (seq 0 n) ++ rest) n
+  = Ok (map (vrow gs) (seq 0 n), rest).
+Proof.
+  intros n gs rest H A N.
+  pose proof (read_vertices_ascii_written n gs n rest H A N (le_n n)) as R. rewrite Nat.sub_diag in R. exact R.
+Qed.
+Print Assumptions ply_roundtrip_ascii_partial.
+
+(* the closed forms used above ARE what the writer model emits *)
+Theorem ply_writer_emits : forall n gs, Forall (group_good n) gs ->
+  mapR (vertex_words gs) (seq 0 n) = Ok (map (fun i => flat_map (fun g => gwords g i) gs) (seq 0 n)) /\
+  mapR (vertex_toks gs) (seq 0 n) = Ok (map (fun i => flat_map (fun g => gtoks g i) gs) (seq 0 n)).
+Proof. intros n gs H. split; [apply write_vertices_bin_ok|apply write_vertices_ascii_ok]; exact H. Qed.
+Print Assumptions ply_writer_emits.
+
+(* ---- the three encodings of one vertex table decode to the same rows ---- *)
+Theorem ply_encodings_agree : forall n gs,
+  Forall (group_good n) gs -> forallb ascii_ok gs = true -> vertex_props gs <> [] ->
+  exists rows,
+    read_vertices_bin LEnd (layout true gs 0) (record_size (vertex_props gs)) n
+      (flat_map (fun i => flat_map (fun g => genc LEnd g i) gs) (seq 0 n)) = Ok (rows, []) /\
+    read_vertices_bin BEnd (layout true gs 0) (record_size (vertex_props gs)) n
+      (flat_map (fun i => flat_map (fun g => genc BEnd g i) gs) (seq 0 n)) = Ok (rows, []) /\
+    read_vertices_ascii (layout false gs 0) (List.length (vertex_props gs))
+      (map (fun i => flat_map (fun g => gtoks g i) gs) (seq 0 n)) n = Ok (rows, []).
+Proof.
+  intros n gs H A N. exists (map (vrow gs) (seq 0 n)).
+  pose proof (ply_roundtrip_le_partial n gs [] H) as L. pose proof (ply_roundtrip_be_partial n gs [] H) as B.
+  pose proof (ply_roundtrip_ascii_partial n gs [] H A N) as C. rewrite app_nil_r in L, B, C. auto.
+Qed.
+Print Assumptions ply_encodings_agree.
+
+(* ---- face element: `3 i0 i1 i2` (+ `6` and six floats gathered per corner) comes back as the index list and
+        one UV pair per corner, for every number of faces and any reader state left by a previous face ---- *)
+Theorem ply_faces_bin : forall e ts rest st, Forall tri_ok ts -> shape st ->
+  faces_bin e [(UChar, Int)] 0 None (flat_map (rec_notex e) ts ++ rest) (List.length ts) st = Ok (flat_map tri_z ts, []).
+Proof. exact faces_bin_notex. Qed.
+Print Assumptions ply_faces_bin.
+
+Theorem ply_faces_bin_texcoord : forall e fts rest st, Forall ftu_ok fts -> shape st ->
+  faces_bin e [(UChar, Int); (UChar, Float)] 0 (Some 1%nat) (flat_map (rec_tex e) fts ++ rest) (List.length fts) st
+  = Ok (flat_map (fun tu => tri_z (fst tu)) fts, flat_map (fun tu => pairs (map cvF (snd tu))) fts).
+Proof. exact faces_bin_tex. Qed.
+Print Assumptions ply_faces_bin_texcoord.
+
+Theorem ply_faces_ascii : forall ts rest st, shape st ->
+  faces_ascii [(UChar, Int)] 0 None (map line_notex ts ++ rest) (List.length ts) st = Ok (flat_map tri_z ts, []).
+Proof. exact faces_ascii_notex. Qed.
+Print Assumptions ply_faces_ascii.
+
+Theorem ply_faces_ascii_texcoord : forall fts rest st, Forall (fun tu => List.length (snd tu) = 6%nat) fts -> shape st ->
+  faces_ascii [(UChar, Int); (UChar, Float)] 0 (Some 1%nat) (map line_tex fts ++ rest) (List.length fts) st
+  = Ok (flat_map (fun tu => tri_z (fst tu)) fts, flat_map (fun tu => pairs (map cvF (snd tu))) fts).
+Proof. exact faces_ascii_tex. Qed.
+Print Assumptions ply_faces_ascii_texcoord.
+
+(* the face records/lines above are what the writer model emits, with the UVs gathered through the index *)
+Theorem ply_face_records_emitted : forall e m t,
+  (has_tex m = false -> face_bin_rec e m t = Ok (rec_notex e t) /\ face_ascii_line m t = Ok (line_notex t)) /\
+  (forall uv, has_tex m = true -> face_uvs m t = Ok uv ->
+     face_bin_rec e m t = Ok (rec_tex e (t, uv)) /\ face_ascii_line m t = Ok (line_tex (t, uv))).
+Proof.
+  intros e m t. split.
+  - intros H. split; [apply face_bin_rec_notex|apply face_ascii_line_notex]; exact H.
+  - intros uv H U. split; [apply face_bin_rec_tex|apply face_ascii_line_tex]; assumption.
+Qed.
+Print Assumptions ply_face_records_emitted.
+
+(* ---- the header describes the body: element counts are AttributeLength / PrimitiveCount, the binary vertex
+        block has vcount * rowsize bytes, a face record 13 (38 with texture coordinates) bytes, every index list
+        is complete (flat_map tri_z (tris idx) = idx, count = len/3) ---- *)
+Theorem ply_header_describes_body : forall gs m e n,
+  (exists ve, nth_error (header_elems gs m) 0 = Some ve /\ e_name ve = "vertex"%string /\ e_count ve = Z.of_nat (w_n m)
+              /\ e_props ve = vertex_props gs) /\
+  (w_topo m = TTriangle -> exists fe, nth_error (header_elems gs m) 1 = Some fe /\ e_name fe = "face"%string
+                                      /\ e_count fe = Z.of_nat (List.length (w_idx m) / 3)) /\
+  (Forall (group_good n) gs ->
+     List.length (flat_map (fun i => flat_map (fun g => genc e g i) gs) (seq 0 n)) = (n * record_size (vertex_props gs))%nat) /\
+  (forall t, List.length (rec_notex e t) = 13%nat) /\
+  (forall tu, List.length (snd tu) = 6%nat -> List.length (rec_tex e tu) = 38%nat) /\
+  (forall idx, (List.length idx mod 3 = 0)%nat ->
+     flat_map (fun '(a, b, c) => [a; b; c]) (tris idx) = idx /\ List.length (tris idx) = (List.length idx / 3)%nat).
+Proof.
+  intros gs m e n. split; [|split; [|split; [|split; [|split]]]].
+  - eexists. split; [reflexivity|]. auto.
+  - intros T. unfold header_elems, nprims. rewrite T. eexists. split; [reflexivity|]. auto.
+  - apply vertex_block_length.
+  - apply rec_notex_length.
+  - apply rec_tex_length.
+  - intros idx H. apply (tris_spec (List.length idx)); [apply le_n|exact H].
+Qed.
+Print Assumptions ply_header_describes_body.
+
+(* ---- the known finding, as a statement about the reader model: an 8-bit scalar comes back raw from ASCII ---- *)
+Theorem ascii_uchar_scalar_refuted :
+  exists gs, Forall (group_good 1) gs /\ forallb ascii_ok gs = false /\
+    fst (match read_vertices_ascii (layout false gs 0) (List.length (vertex_props gs))
+                 [flat_map (fun g => gtoks g 0) gs] 1 with Ok x => x | Err _ => ([], []) end)
+    <> map (vrow gs) (seq 0 1).
+Proof.
+  exists [{| rg_attr := "Opacity"; rg_names := ["opacity"%string]; rg_ty := UChar; rg_rows := [[1056964608]] |}].
+  split; [|split; [reflexivity|vm_compute; discriminate]].
+  constructor; [|constructor]. split; [reflexivity|]. split; [reflexivity|]. constructor; [|constructor].
+  split; [reflexivity|]. constructor; [|constructor]. split.
+  - exists 128. split; [vm_compute; reflexivity|vm_compute; reflexivity].
+  - eexists. vm_compute. reflexivity.
+Qed.
+Print Assumptions ascii_uchar_scalar_refuted.
+
+(* non-vacuity: a welded quad with colours and texture coordinates is well-formed, is written in all three
+   encodings, and the reader model returns [expected] from each of them *)
+Example ply_example :
+  let m := {| w_topo := TTriangle; w_idx := [0; 1; 2; 0; 2; 3]%nat; w_n := 4%nat;
+              w_attrs := [ {| wa_dim := 3; wa_name := "Color"; wa_rows := [[0; 1065353216; 1056964608]; [1048576000; 0; 0]; [0; 0; 0]; [1065353216; 1065353216; 1065353216]] |};
+                           {| wa_dim := 3; wa_name := "Position"; wa_rows := [[0; 0; 0]; [1065353216; 0; 0]; [1065353216; 1065353216; 0]; [0; 1065353216; 0]] |};
+                           {| wa_dim := 2; wa_name := "TexCoord"; wa_rows := [[0; 0]; [1065353216; 0]; [1065353216; 1065353216]; [0; 1048576000]] |};
+                           {| wa_dim := 1; wa_name := "Intensity"; wa_rows := [[1065353216]; [3221225472]; [1056964608]; [0]] |} ] |} in
+  wf_mesh m = true /\
+  forallb (fun f => match write default_opts f m, expected default_opts m with
+                    | Ok file, Ok r => match read_mesh file with Ok r' => mesh_eqb r r' | Err _ => false end
+                    | _, _ => false end) [ASCII; BinLE; BinBE] = true.
+Proof. vm_compute. split; reflexivity. Qed.
